@@ -18,6 +18,13 @@ pub fn check_value(v: &RVal, rec: &mut Rec) -> Verdict {
         rec.nontrivial(key_of(&text));
     }
     rec.sample(|| format!("{} => {:?}", render(v), trunc(&text, 200)));
+    // the same text whatever the writer: `to_zinc` into a writer that takes a few bytes per call
+    {
+        let r = zinc_encode_short_writes(&hv, &text);
+        if r.is_fail() {
+            return prefix_sig("C01:zinc-rt", r, &shape(v));
+        }
+    }
     // a decode that fails must leave nothing behind on this thread: two damaged prefixes of the text first
     // (cut at a position derived from the text, and inside its first string literal)
     {
@@ -160,7 +167,7 @@ fn deep_ladder(ctx: &mut Ctx) {
 }
 
 pub fn run(ctx: &mut Ctx) {
-    ctx.rule("generated: well-formed values of all 18 kinds (proptest, structured); oracle: decode(encode(v)) strictly equals v (RVal projection: kind, f64 bits up to sign of zero, unit ids, every string, Ref dis, instant+offset+city, collections in order; Null tag == absent tag); non-trivial: not a singleton/Bool kind; distinct by Zinc text; the text is also decoded through Parser::make over a reader that delivers it in pieces of three generated sizes; every decode is preceded by the (rejected) decode of two damaged prefixes of the same text on the same thread; plus a deep-nesting ladder: lists / dicts / grids in cells / grids in grid meta / alternating, 18 depths from 1 to 250 (the decoder's documented bound is 256 levels)");
+    ctx.rule("generated: well-formed values of all 18 kinds (proptest, structured); oracle: decode(encode(v)) strictly equals v (RVal projection: kind, f64 bits up to sign of zero, unit ids, every string, Ref dis, instant+offset+city, collections in order; Null tag == absent tag); non-trivial: not a singleton/Bool kind; distinct by Zinc text; the value is also encoded with to_zinc into a writer that accepts 1-61 bytes per call (same text required); the text is also decoded through Parser::make over a reader that delivers it in pieces of three generated sizes; every decode is preceded by the (rejected) decode of two damaged prefixes of the same text on the same thread; plus a deep-nesting ladder: lists / dicts / grids in cells / grids in grid meta / alternating, 18 depths from 1 to 250 (the decoder's documented bound is 256 levels)");
     ctx.assume("chrono / chrono-tz give the true zone rules; values are built through public constructors only");
     let depth = ctx.tier.pick(3, 5) as u32;
     let total = ctx.tier.pick(64_000, 1_600_000);
